@@ -35,14 +35,14 @@ def gen_cases(rng, n):
 
 
 def coq_tables(cases):
-    path = os.path.join(COQ, 'gprops', 'K_fourier_cases.v')
+    path = os.path.join(COQ, 'gprops', 'K_fourier_cases_%d.v' % os.getpid())
     lines = ['From Coq Require Import ZArith List.', 'From QSCProps Require Import C14_fourier C14_weights.', 'Import ListNotations.']
     for (nt, nph, mp, ntr) in cases:
         lines.append('Eval vm_compute in (table (w4C %d %d) %d %d, table (w4S %d %d) %d %d, map (row_n %d) (seq 0 (2 * %d + 1))).'
                      % (nt, nph, mp, ntr, nt, nph, mp, ntr, ntr, ntr))
     lines.append('Eval vm_compute in (kept true, kept false).')
     open(path, 'w').write('\n'.join(lines) + '\n')
-    p = subprocess.run(['coqc', '-Q', 'theories', 'QSC', '-Q', 'props', 'QSCProps', '-Q', 'gprops', 'QSCGProps', 'gprops/K_fourier_cases.v'],
+    p = subprocess.run(['coqc', '-Q', 'theories', 'QSC', '-Q', 'props', 'QSCProps', '-Q', 'gprops', 'QSCGProps', 'gprops/K_fourier_cases_%d.v' % os.getpid()],
                        cwd=COQ, capture_output=True, text=True, timeout=900)
     if p.returncode != 0:
         return None, (p.stdout + p.stderr)[-800:]
